@@ -169,9 +169,18 @@ def r5_rebinding(ctx):
         ctx.ob('C02.R5', ob.key, ob.ok, ob.loc, ob.detail, ob.nontrivial)
 
 
+def r6_derived_cloning_policy(ctx):
+    from .compiler_common import derived_inherits
+    ctx.rule('C02.R6', 'P7 provenance: a component derived from a registered one (Ok-matcher, prebuilt / config constructor) carries the cloning '
+             'policy of the component it derives from: `clone_if_necessary()` on a fallible constructor must reach the node that yields the '
+             'value, otherwise the borrow checker refuses a blueprint that follows the documented rule.')
+    derived_inherits(ctx, 'C02.R6', 'cloning_policy', '::CloningPolicy', 'cloning policy')
+
+
 def check(ctx):
     r1_exemptions_first(ctx)
     r2_control_flow_test(ctx)
     r3_scope_ancestry(ctx)
     r4_conflicts_per_domain(ctx)
     r5_rebinding(ctx)
+    r6_derived_cloning_policy(ctx)
